@@ -696,7 +696,17 @@ class PowerExpression(BinaryExpression):
         return np.power(one, two)
 
     def __str__(self) -> str:
-        return "{}{}{}".format(self.left, self.with_color(self.name), self.right)
+        left: Union[Optional[MathExpression], str] = self.left
+        right: Union[Optional[MathExpression], str] = self.right
+        # (-x)^2, (2x)^2 and (a^b)^c: the exponent would otherwise bind to the last factor
+        if isinstance(left, (NegateExpression, PowerExpression)) or (
+            isinstance(left, MultiplyExpression) and left.is_implicit()
+        ):
+            left = f"({left})"
+        # a^(b^c)
+        if isinstance(right, PowerExpression):
+            right = f"({right})"
+        return "{}{}{}".format(left, self.with_color(self.name), right)
 
 
 class ConstantExpression(MathExpression):
